@@ -201,6 +201,7 @@ type eventList struct {
 	seqs    sequenceNumSlice
 	events  map[sequenceNum]*event
 	lastSeq sequenceNum
+	hasLast bool // hasLast is true once lastSeq holds a delivered sequence (0 is a valid sequence).
 	maxSize int
 	timeout time.Duration
 }
@@ -212,6 +213,25 @@ func newEventList(maxSize int, timeout time.Duration) *eventList {
 		maxSize: maxSize,
 		timeout: timeout,
 	}
+}
+
+// advanceLastSeq records seq as the most recently delivered sequence and
+// returns how many sequence numbers were skipped since the previous one. Late
+// or duplicate events (seq is not ahead of lastSeq, rollover aware) neither
+// count as a loss nor move lastSeq backwards.
+func (l *eventList) advanceLastSeq(seq sequenceNum) int {
+	if !l.hasLast {
+		l.hasLast = true
+		l.lastSeq = seq
+		return 0
+	}
+
+	ahead := seq - l.lastSeq
+	if ahead == 0 || ahead > maxSortRange {
+		return 0
+	}
+	l.lastSeq = seq
+	return int(ahead - 1)
 }
 
 // remove the first event (lowest sequence) in the list.
@@ -242,10 +262,7 @@ func (l *eventList) Clear() ([]*event, int) {
 		seq = l.seqs[0]
 		event := l.events[seq]
 
-		if l.lastSeq > 0 {
-			lost += int(seq - l.lastSeq - 1)
-		}
-		l.lastSeq = seq
+		lost += l.advanceLastSeq(seq)
 		evicted = append(evicted, event)
 		l.remove()
 	}
@@ -301,10 +318,7 @@ func (l *eventList) CleanUp() ([]*event, int) {
 		event := l.events[seq]
 
 		if event.complete || size > l.maxSize || event.IsExpired() {
-			if l.lastSeq > 0 {
-				lost += int(seq - l.lastSeq - 1)
-			}
-			l.lastSeq = seq
+			lost += l.advanceLastSeq(seq)
 			evicted = append(evicted, event)
 			l.remove()
 			continue
